@@ -510,6 +510,23 @@ def r4(ctx):
                 names = [pretty(strip(z)) for z in x["args"]]
                 want = ["values", "gradients"] if kind == "SGD" else (["layer", "filter", "bias", "values", "gradients"] if kind == "RMSprop" else ["layer", "filter", "bias", "stepnr", "values", "gradients"])
                 ctx.check("R03.4", "dispatch-args:" + kind, names == want, "argument-order:" + ",".join(names), c.loc(fn, x), "args %s" % names)
+    # .. unconditionally: on the effect summary every way through Optimizer::update that does not panic performs exactly one step of the
+    # variant it is about, and depends on nothing but the variant
+    from .. import e6
+    E = e6.Exec(c, fn)
+    live = [p for p in E.run_fn() if p.exit is None or p.exit[0] == "return"]
+    SELF = ("p", "self")
+    okd = bool(live)
+    whyd = ""
+    for p in live:
+        var = [t[2] for (t, pol) in p.pc if pol and isinstance(t, tuple) and t[0] == "is" and e6.strip_upd(t[1]) in (SELF, ("un", "Deref", SELF))]
+        other = [t for (t, pol) in p.pc if not (isinstance(t, tuple) and t[0] == "is" and e6.strip_upd(t[1]) in (SELF, ("un", "Deref", SELF)))]
+        steps = [e_ for e_ in p.eff if e_[0] == "mut" and e_[1].endswith("::update")]
+        if len(var) != 1 or other or len(steps) != 1 or steps[0][1] != OPT + var[0].split("::")[-1] + "::update":
+            okd = False
+            whyd = "a path for %s performs %d step(s) under %s" % (var[0].split("::")[-1] if var else "?", len(steps), "; ".join(e6.show(t, 2) for t in other)[:100] or "no further condition")
+    ctx.check("R03.4", "dispatch:unconditional", okd, "dispatch-conditional:" + short(whyd, 70), c.loc(fn), "every call of Optimizer::update performs exactly one step of its variant",
+              "Optimizer::update: %s; every parameter tensor must receive one optimizer step per call, whatever its values" % whyd)
 
 
 def r5(ctx, kind, fn, m, sems, W, G):
@@ -575,5 +592,5 @@ def run(ctx):
     ctx.guard("R03.4", "validate", r4, ctx)
     ctx.floor("R03.1", 15, "5 optimizers x 3 rank arms")
     ctx.floor("R03.2", 2 + 4 + 2 + 1 + 8, "guard valuations: SGD 2, SGDM 4, Adam 2, AdamW 1, RMSprop 8")
-    ctx.floor("R03.4", 14 + 5 + 5 + 5, "14 defaults, 5 state allocations, 5 dispatch arms, 5 argument orders")
+    ctx.floor("R03.4", 14 + 5 + 5 + 5 + 1, "14 defaults, 5 state allocations, 5 dispatch arms, 5 argument orders")
     ctx.floor("R03.5", 60, "sqrt/division obligations and cell checks over 15 arms")
